@@ -341,9 +341,9 @@ def _mvn(stream, mean, cov, size):
                 s = 0
                 for t in range(p):
                     s = s + L[i][t] * L[j][t]
-                e.assume(s == cf[i * p + j])
+                e.assume_lazy(s == cf[i * p + j])
                 if i != j:
-                    e.assume(s == cf[j * p + i])
+                    e.assume_lazy(s == cf[j * p + i])
     k = stream.k
     stream.k += 1
     kk = z3.IntVal(k)
